@@ -329,7 +329,7 @@ pub fn run(ctx: Ctx) -> ! {
     let root = scratch_root();
     let totals = Totals { transitions: AtomicU64::new(0), histories: AtomicU64::new(0) };
     let all_states = std::sync::Mutex::new(BTreeSet::new());
-    let rule = "every sequence of <= d events (d = 3 quick, 5 thorough) over {set configured subset of {p., c.p., s.} (8), set one zone file to missing / valid v1 / valid v2 / syntax error / validation error (15)}, a reload after each, executed from scratch on a real directory through the daemon's config::load_from_path -> zones::reload -> Server::set_catalog (no state merging: entry metadata - path, mtime - is hidden state); after every step 6 probe names are queried through Server::handle_message and compared with the reference model (longest configured suffix; new data if the file loads and validates, else this zone's previous data, else SERVFAIL; unconfigured => not served). states = distinct (configuration, files, model) states reached, transitions = reload steps executed, traces_validated_against_impl = histories executed";
+    let rule = "every sequence of <= d events (d = 4 quick, 5 thorough) over {set configured subset of {p., c.p., s.} (8), set one zone file to missing / valid v1 / valid v2 / syntax error / validation error (15)}, a reload after each, executed from scratch on a real directory through the daemon's config::load_from_path -> zones::reload -> Server::set_catalog (no state merging: entry metadata - path, mtime - is hidden state); after every step 6 probe names are queried through Server::handle_message and compared with the reference model (longest configured suffix; new data if the file loads and validates, else this zone's previous data, else SERVFAIL; unconfigured => not served). states = distinct (configuration, files, model) states reached, transitions = reload steps executed, traces_validated_against_impl = histories executed";
     if let Some(case) = ctx.replay_case() {
         let idx: Vec<usize> = case["history_idx"].as_array().or_else(|| case["case"]["history_idx"].as_array()).expect("history_idx").iter().map(|v| v.as_u64().unwrap() as usize).collect();
         let hist: Vec<Event> = idx.iter().map(|i| evs[*i]).collect();
@@ -340,7 +340,7 @@ pub fn run(ctx: Ctx) -> ! {
         let _ = std::fs::remove_dir_all(&root);
         ctx.finish("model_checking", rule, false);
     }
-    let depth = ctx.pick(3, 5);
+    let depth = ctx.pick(4, 5);
     // Shard by the first two events; every worker enumerates the rest.
     let mut prefixes: Vec<Vec<usize>> = Vec::new();
     for a in 0..evs.len() {
